@@ -296,9 +296,11 @@ def runCase : CaseFn := fun c => Id.run do
       if isFetch && resolveHonest then
         let tf := trueFs e chain
         let bannedNow := d.bans
+        let ncps := (bracket (ws.drop 1)).1.length
         let honestEv (ev : CpEv) : Bool :=
           let startH := ev.k * 1000 + 1
-          !ev.stopOk || (ev.prev == tf.getD (startH - 1) 0 &&
+          !ev.stopOk || (ev.hashes.length == (min (ev.k + 2) ncps) * 1000 - ev.k * 1000 &&
+            ev.prev == tf.getD (startH - 1) 0 &&
             (List.range ev.hashes.length).all (fun j =>
               ev.hashes.getD j 0 == (e.tf.get? (chain.getD (startH + j) 0)).getD 0))
         for p in e.allPeers do
